@@ -30,6 +30,25 @@ func (fv *FV) ghostAt(st *State, anchor string, pos token.Pos) {
 	}
 }
 
+func (fv *FV) ghostBefore(st *State, s ast.Stmt) {
+	if fv.fc == nil || st == nil || len(fv.fc.Ghosts) == 0 {
+		return
+	}
+	var text string
+	for _, g := range fv.fc.Ghosts {
+		if !strings.HasPrefix(g.Anchor, "before ") {
+			continue
+		}
+		if text == "" {
+			text = fv.srcFull(s)
+		}
+		want := strings.Trim(strings.TrimSpace(g.Anchor[7:]), "\"")
+		if normSpace(want) == normSpace(text) {
+			fv.execGhost(st, g, s.Pos())
+		}
+	}
+}
+
 func (fv *FV) ghostAfter(st *State, s ast.Stmt) {
 	if fv.fc == nil || st == nil || len(fv.fc.Ghosts) == 0 {
 		return
@@ -82,14 +101,19 @@ func (fv *FV) ghostAssignedIn(ord int) map[string]bool {
 }
 
 func (fv *FV) execGhost(st *State, g *GhostStmt, pos token.Pos) {
+	if !fv.tagOK(g.Tags) {
+		return
+	}
 	env := fv.localEnv(st, pos)
 	if !pos.IsValid() {
 		env.scopePos = fv.fi.Decl.Body.Lbrace + 1
 	}
 	switch g.Kind {
 	case "assert":
-		fv.oblige(st, "ghost.assert["+g.Src+"]", fv.specBool(env, g.RHS), "ghost assertion "+g.Src, nil, pos)
+		fv.oblige(st, "ghost.assert["+g.Src+"]", fv.specBool(env, g.RHS), "ghost assertion "+g.Src, g.Tags, pos)
 		fv.assume(st, fv.specBool(env, g.RHS))
+	case "apply":
+		fv.applyLemma(st, env, g, pos)
 	case "assume":
 		fv.assume(st, fv.specBool(env, g.RHS))
 		fv.assumptions["ghost assume in "+fv.fi.FullName()+": "+g.Src] = true
@@ -345,7 +369,9 @@ func (fv *FV) applyReport(st *State, rf []string, f Term, args []Term, pos token
 	cur := fv.ghostVarTerm(env, gv)
 	key := fv.spec(env.with("v?", args[0]), &SCall{Fn: rf[2], Args: []SExpr{&SIdent{"v?"}}})
 	isRep := fv.spec(env.with("f?", f), &SCall{Fn: "isReporter", Args: []SExpr{&SIdent{"f?"}}})
-	fv.heapSet(st, "G:"+gv.Name, ite(isRep.S, sto(cur.S, key.S, args[1].S), cur.S))
+	nv := fv.fresh("rep", cur.Sort)
+	fv.define(st, eq(nv, ite(isRep.S, sto(cur.S, key.S, args[1].S), cur.S)))
+	fv.heapSet(st, "G:"+gv.Name, nv)
 	return nil
 }
 
@@ -412,4 +438,82 @@ func (fv *FV) specSetOps(env *Env, c *SCall) (Term, bool)     { return Term{}, f
 func (fv *FV) load64(st *State, s Term, i string) Term {
 	fv.sfail("load64 not supported yet")
 	return Term{}
+}
+
+// applyLemma: `at ANCHOR: apply name(args)`. The lemma `premise ==> forall j :: Q(j)` is proved here, in the
+// current state, by its induction step (strong induction on the naturals is the one trusted meta-step) and
+// then assumed for the current state.
+func (fv *FV) applyLemma(st *State, env *Env, g *GhostStmt, pos token.Pos) {
+	call, ok := g.RHS.(*SCall)
+	if !ok {
+		fv.sfail("apply: expected lemma(args)")
+	}
+	var lm *Lemma
+	seen := map[*PkgContracts]bool{}
+	var look func(pc *PkgContracts)
+	look = func(pc *PkgContracts) {
+		if pc == nil || seen[pc] || lm != nil {
+			return
+		}
+		seen[pc] = true
+		if l := pc.Lemmas[call.Fn]; l != nil {
+			lm = l
+			return
+		}
+		for _, imp := range pc.Imports {
+			look(fv.w.contracts[imp])
+		}
+	}
+	look(fv.pc)
+	if lm == nil {
+		fv.sfail("apply: unknown lemma %s", call.Fn)
+	}
+	if len(lm.Params) != len(call.Args) {
+		fv.sfail("apply %s: %d arguments expected", lm.Name, len(lm.Params))
+	}
+	lenv := &Env{fv: fv, st: st, old: env.old, names: map[string]Term{}, pc: lm.Pkg, qdepth: 0}
+	for i, p := range lm.Params {
+		lenv.names[p.Name] = fv.spec(env, call.Args[i])
+	}
+	imp, ok := lm.Expr.(*SBin)
+	var premise SExpr
+	body := lm.Expr
+	if ok && imp.Op == "==>" {
+		premise, body = imp.L, imp.R
+	}
+	q, ok := body.(*SQuant)
+	if !ok || !q.Forall || len(q.Vars) != 1 || q.Vars[0].Name != lm.InductOn {
+		fv.sfail("lemma %s: expected `premise ==> forall %s int :: Q` with induction on %s", lm.Name, lm.InductOn, lm.InductOn)
+	}
+	prem := "true"
+	if premise != nil {
+		prem = fv.specBool(lenv, premise)
+	}
+	// induction step for an arbitrary j0
+	j0 := Term{S: fv.fresh(lm.InductOn+"0", sInt), Sort: sInt, T: types.Typ[types.Int]}
+	qj0 := fv.specBool(lenv.with(lm.InductOn, j0), q.Body)
+	// build IH directly: forall k. 0 <= k < j0 ==> Q(k)
+	e2, binders := fv.bindQuant(lenv, q)
+	k := e2.names[lm.InductOn]
+	qk := fv.specBool(e2, q.Body)
+	pats := fv.quantPatterns(e2, q)
+	bodyK := implies(and(app("<=", "0", k.S), app("<", k.S, j0.S)), qk)
+	if pats != "" {
+		bodyK = "(! " + bodyK + " " + pats + ")"
+	}
+	ihS := fmt.Sprintf("(forall (%s) %s)", binders, bodyK)
+	sub := st.clone()
+	fv.assume(sub, prem)
+	fv.assume(sub, ihS)
+	// hints seed the terms the instantiation needs
+	for _, h := range lm.Hints {
+		t := fv.spec(lenv.with(lm.InductOn, j0), h)
+		c := fv.fresh("hint", t.Sort)
+		fv.define(sub, eq(c, t.S))
+	}
+	fv.oblige(sub, "lemma."+lm.Name+".step", qj0, "induction step of lemma "+lm.Name+": "+lm.Src, g.Tags, pos)
+	fv.assumptions["lemma "+lm.Name+" is proved by its induction step; the principle of strong induction on the naturals is the trusted meta-step"] = true
+	// the lemma itself, for the current state
+	concl := fv.specBool(lenv, body)
+	fv.assume(st, implies(prem, concl))
 }
